@@ -36,7 +36,9 @@ const (
 	nLoop
 	nBreak
 	nContinue
-	nWhen // if <loop var> == n { body }
+	nWhen    // if <loop var> == n { body }
+	nIf      // if true { body }: a plain nested block
+	nForCond // for true { body; break }: the body of a condition-only loop, run once
 )
 
 type node struct {
@@ -46,6 +48,7 @@ type node struct {
 	catch []*node
 	label string // loop label, or target of break/continue
 	lv    string // loop variable (loop, when)
+	named bool   // Defer: rendered as the named call "defer mark(<literal>)" instead of a closure; Return: a bare "return"
 }
 
 type cfn struct {
@@ -53,6 +56,7 @@ type cfn struct {
 	raising bool // may end with an uncaught runtime error: has no defer
 	panicky bool // may end with an unrecovered panic
 	hasTry  bool
+	style   int // how Defer is rendered in this function: 0 closures, 1 named calls only (no function literal in the body), 2 both
 }
 
 type cprog struct {
@@ -106,6 +110,19 @@ func (g *c10gen) stmt(c c10ctx) []*node {
 	p := g.p
 	for tries := 0; tries < 8; tries++ {
 		switch x := g.r.Intn(100); {
+		case g.r.Intn(100) < 12 && c.depth < 4 && !c.inDefer:
+			// a plain nested block: if true { ... } or the body of a condition-only loop
+			bc := c
+			bc.depth++
+			if g.r.Intn(2) == 0 || c.inTry > 0 && g.avoided("try:error-after-for3-loop") {
+				bc.where = "if-body"
+				p.feats["if-block"] = true
+				return []*node{{k: nIf, body: g.stmts(bc, 1+g.r.Intn(2))}}
+			}
+			bc.where = "forcond-body"
+			bc.loops = nil // a break/continue written here would bind to this loop
+			p.feats["forcond-block"] = true
+			return []*node{{k: nForCond, body: g.stmts(bc, 1+g.r.Intn(2))}}
 		case x < 22:
 			return []*node{g.mark(c.where)}
 		case x < 34 && c.depth < 5 && !c.inDefer && !g.noTry:
@@ -141,6 +158,13 @@ func (g *c10gen) stmt(c c10ctx) []*node {
 			p.feats["defer"] = true
 			d := &node{k: nDefer}
 			d.body = []*node{g.mark("defer-body")}
+			if c.f.style == 1 || c.f.style == 2 && g.r.Intn(2) == 0 {
+				// defer mark(<literal>): a named call with a literal argument (late evaluation cannot matter)
+				d.named = true
+				p.feats["defer-named"] = true
+				p.feats["defer-named-in-"+c.where] = true
+				return []*node{d}
+			}
 			if g.r.Intn(100) < 40 {
 				p.feats["recover"] = true
 				d.body = append(d.body, &node{k: nRecover, body: []*node{g.mark("recovered")}})
@@ -249,6 +273,57 @@ func (g *c10gen) callee(c c10ctx, ok func(*cfn) bool) int {
 	return cs[g.r.Intn(len(cs))]
 }
 
+// onlyBlocks builds a function body made of nested blocks only (no statement at the top level but the
+// blocks themselves), each of which registers at least one deferred call.
+func (g *c10gen) onlyBlocks(c c10ctx) []*node {
+	var out []*node
+	n := 1 + g.r.Intn(3)
+	for i := 0; i < n; i++ {
+		bc := c
+		bc.depth++
+		d := func(where string) *node {
+			bc.where = where
+			x := &node{k: nDefer, named: c.f.style == 1 || g.r.Intn(2) == 0, body: []*node{g.mark("defer-body")}}
+			g.p.feats["defer"] = true
+			if x.named {
+				g.p.feats["defer-named"] = true
+				g.p.feats["defer-named-in-"+where] = true
+			}
+			return x
+		}
+		switch k := g.r.Intn(4); {
+		case k == 0:
+			bc.where = "if-body"
+			out = append(out, &node{k: nIf, body: append([]*node{d("if-body")}, g.stmts(bc, g.r.Intn(2))...)})
+		case k == 1:
+			bc.loops = nil
+			bc.where = "forcond-body"
+			out = append(out, &node{k: nForCond, body: append([]*node{d("forcond-body")}, g.stmts(bc, g.r.Intn(2))...)})
+		case k == 2 && !g.noTry:
+			g.p.usesTry = true
+			g.p.feats["try"] = true
+			c.f.hasTry = true
+			t := &node{k: nTry, body: []*node{d("try-body"), g.mark("try-body")}, catch: []*node{g.mark("catch"), d("catch")}}
+			if g.r.Intn(2) == 0 {
+				t.body = append(t.body, &node{k: nRaise, n: g.r.Intn(3)}, g.mark("after-raise-in-try"))
+				g.p.feats["raise-direct"] = true
+			}
+			out = append(out, t)
+		default:
+			g.p.nextV++
+			l := &node{k: nLoop, n: 2, lv: fmt.Sprintf("i%d", g.p.nextV)}
+			lc := bc
+			lc.loops = append(append([]*node{}, c.loops...), l)
+			lc.where = "loop-body"
+			l.body = append([]*node{d("loop-body")}, g.stmts(lc, g.r.Intn(2))...)
+			g.p.feats["loop"] = true
+			g.p.feats["defer-in-loop"] = true
+			out = append(out, l)
+		}
+	}
+	return out
+}
+
 func genC10(r *rand.Rand, avoid map[string]bool, noTry bool) *cprog {
 	p := &cprog{marks: map[int]string{}, feats: map[string]bool{}}
 	g := &c10gen{r: r, p: p, avoid: avoid, noTry: noTry}
@@ -263,9 +338,21 @@ func genC10(r *rand.Rand, avoid map[string]bool, noTry bool) *cprog {
 			f.panicky = true
 		}
 		p.fns[i] = f
+		f.style = r.Intn(3)
 		c := c10ctx{fi: i, f: f, where: "func-body"}
-		f.body = append([]*node{g.mark("func-entry")}, g.stmts(c, 2+r.Intn(4))...)
-		f.body = append(f.body, g.mark("func-end"))
+		if !f.raising && r.Intn(100) < 25 {
+			// a body that consists of nothing but nested blocks holding the defers
+			f.style = 1 + r.Intn(2)
+			p.feats["only-blocks-body"] = true
+			f.body = g.onlyBlocks(c)
+		} else {
+			f.body = append([]*node{g.mark("func-entry")}, g.stmts(c, 2+r.Intn(4))...)
+			f.body = append(f.body, g.mark("func-end"))
+		}
+		if r.Intn(100) < 20 {
+			p.feats["return-bare-at-end"] = true
+			f.body = append(f.body, &node{k: nReturn, named: true})
+		}
 	}
 	m := &cfn{}
 	p.fns[0] = m
@@ -350,6 +437,13 @@ func (m *machine) exec(n *node, fr *mframe) sig {
 		if m.loopVal[n.lv] == n.n {
 			return m.block(n.body, fr)
 		}
+	case nIf:
+		return m.block(n.body, fr)
+	case nForCond:
+		// the body of "for true { ...; break }" runs once; an unlabeled break/continue inside it would be its own
+		if s := m.block(n.body, fr); s.k != sNone && !(s.label == "" && (s.k == sBreak || s.k == sContinue)) {
+			return s
+		}
 	case nLoop:
 		for i := 0; i < n.n; i++ {
 			m.loopVal[n.lv] = i
@@ -400,6 +494,7 @@ func predict(p *cprog) (trace []int, aborted bool) {
 
 func (p *cprog) render() string {
 	var b strings.Builder
+	b.WriteString("func __P__mark(n int) {\n\t__F__Printf(\"m %d\\n\", n)\n}\n\n")
 	for i := len(p.fns) - 1; i >= 1; i-- {
 		fmt.Fprintf(&b, "func __P__f%d() {\n", i)
 		renderBlock(&b, p.fns[i].body, 1)
@@ -423,7 +518,19 @@ func renderBlock(b *strings.Builder, ns []*node, ind int) {
 			fmt.Fprintf(b, "%s} catch {\n", t)
 			renderBlock(b, n.catch, ind+1)
 			fmt.Fprintf(b, "%s}\n", t)
+		case nIf:
+			fmt.Fprintf(b, "%sif true {\n", t)
+			renderBlock(b, n.body, ind+1)
+			fmt.Fprintf(b, "%s}\n", t)
+		case nForCond:
+			fmt.Fprintf(b, "%sfor true {\n", t)
+			renderBlock(b, n.body, ind+1)
+			fmt.Fprintf(b, "%s\tbreak\n%s}\n", t, t)
 		case nDefer:
+			if n.named {
+				fmt.Fprintf(b, "%sdefer __P__mark(%d)\n", t, n.body[0].n)
+				continue
+			}
 			fmt.Fprintf(b, "%sdefer func() {\n", t)
 			renderBlock(b, n.body, ind+1)
 			fmt.Fprintf(b, "%s}()\n", t)
@@ -445,6 +552,10 @@ func renderBlock(b *strings.Builder, ns []*node, ind int) {
 		case nCall:
 			fmt.Fprintf(b, "%s__P__f%d()\n", t, n.n)
 		case nReturn:
+			if n.named {
+				fmt.Fprintf(b, "%sreturn\n", t)
+				continue
+			}
 			fmt.Fprintf(b, "%sif true {\n%s\treturn\n%s}\n", t, t, t)
 		case nBreak, nContinue:
 			kw := map[nkind]string{nBreak: "break", nContinue: "continue"}[n.k]
@@ -567,6 +678,63 @@ func c10Probes() map[string]*cprog {
 	return out
 }
 
+type c10Cell struct {
+	key string
+	p   *cprog
+}
+
+// c10DeferTable enumerates: Defer rendered as a closure or as the named call defer mark(<literal>) x
+// where the two defers of the function sit (top level, if body, try body, catch body, body of a
+// condition-only loop, body of a three-clause loop) x how the function ends (reaching its end, a bare
+// return, a return one or two blocks deep, panic). For every placement but "top" the function body
+// holds nothing but that block and the exit statement (no declaration, and for the named form no
+// function literal).
+func c10DeferTable() []c10Cell {
+	var cells []c10Cell
+	for _, style := range []string{"named", "closure"} {
+		for _, place := range []string{"top", "if", "try", "catch", "forcond", "for3"} {
+			for _, exit := range []string{"end", "return0", "return1", "return2", "panic"} {
+				p := &cprog{marks: map[int]string{}, feats: map[string]bool{"table": true}}
+				n := 0
+				m := func(ctx string) *node { n++; p.marks[n] = ctx; return &node{k: nMark, n: n} }
+				d := func() *node { return &node{k: nDefer, named: style == "named", body: []*node{m("defer-body")}} }
+				inner := []*node{d(), m("block"), d()}
+				var body []*node
+				switch place {
+				case "top":
+					body = inner
+				case "if":
+					body = []*node{{k: nIf, body: inner}}
+				case "try":
+					p.usesTry = true
+					body = []*node{{k: nTry, body: inner, catch: []*node{m("catch")}}}
+				case "catch":
+					p.usesTry = true
+					body = []*node{{k: nTry, body: []*node{{k: nRaise, n: 2}, m("after-raise-in-try")}, catch: inner}}
+				case "forcond":
+					body = []*node{{k: nForCond, body: inner}}
+				default:
+					body = []*node{{k: nLoop, n: 2, lv: "i1", body: inner}}
+				}
+				switch exit {
+				case "return0":
+					body = append(body, &node{k: nReturn, named: true})
+				case "return1":
+					body = append(body, &node{k: nReturn}, m("after-return"))
+				case "return2":
+					body = append(body, &node{k: nIf, body: []*node{{k: nReturn}}}, m("after-return"))
+				case "panic":
+					body = append(body, &node{k: nPanic, n: 1}, m("after-panic"))
+				}
+				mainBody := []*node{{k: nCall, n: 1}, m("after-call")}
+				p.fns = []*cfn{{body: mainBody}, {body: body}}
+				cells = append(cells, c10Cell{key: "defer-table:" + style + ":" + place + ":" + exit, p: p})
+			}
+		}
+	}
+	return cells
+}
+
 func TestC10(t *testing.T) {
 	r := vh.New("C10", "traces")
 	r.Rule = "programs generated from the abstract syntax {Mark, Try/catch, Defer(+Recover), Panic, Raise (division by zero, index out of range, @error), Call, Return, Loop with break/continue on a chosen iteration, labeled jumps} nested to depth <= 5 over 2-5 functions; " +
@@ -610,6 +778,46 @@ func TestC10(t *testing.T) {
 			if key, detail := traceVerdict(p.marks, want, wantAbort, e); key != "" {
 				r.Violate(vh.Violation{Key: k, Desc: fmt.Sprintf("%s: %s (-o %d)", key, detail, opt),
 					Case:     c10Case{Ego: src, Opt: opt, Want: want, Abort: wantAbort, Marks: p.marks},
+					Expected: map[string]any{"trace": want, "abort": wantAbort}, Observed: map[string]any{"stdout": e.Out, "error": e.Err}})
+				break
+			}
+		}
+	}
+	// the enumerated defer table (closure / named call x placement x kind of exit)
+	table := c10DeferTable()
+	tprogs := make([]gen.Program, len(table))
+	for i, c := range table {
+		tprogs[i] = gen.FromTemplate(c.p.render(), true)
+		if c.p.usesTry {
+			tprogs[i].Go = ""
+		}
+	}
+	tres, terr := gen.RunGoBatch(arena(t), tprogs)
+	if terr != nil {
+		r.Inconcl("go batch (defer table): " + trunc(terr.Error(), 300))
+	}
+	for i, c := range table {
+		want, wantAbort := predict(c.p)
+		r.Probe(c.key)
+		if tprogs[i].Go != "" && !tres[i].Missing && tres[i].BuildErr == "" {
+			gt, _ := parseTrace(tres[i].Out)
+			r.Count("go.oracle.runs", 1)
+			if fmt.Sprint(gt) != fmt.Sprint(want) || tres[i].Panicked != wantAbort {
+				r.Count("model.disagrees_with_go", 1)
+				r.Inconcl(fmt.Sprintf("defer table %s: abstract machine and Go disagree: want %v abort=%v, go %v abort=%v", c.key, want, wantAbort, gt, tres[i].Panicked))
+				continue
+			}
+			r.Count("go.oracle.agrees_with_model", 1)
+		} else if tprogs[i].Go != "" {
+			r.Inconcl("defer table " + c.key + ": no Go reference: " + trunc(tres[i].BuildErr, 200))
+		}
+		for _, opt := range []int{0, 2} {
+			e := runEgo(tprogs[i].Ego, egorun.Config{Opt: opt, Extensions: true})
+			r.Eval(vh.Hash(tprogs[i].Ego, opt), true)
+			r.Count("table.runs", 1)
+			if key, detail := traceVerdict(c.p.marks, want, wantAbort, e); key != "" {
+				r.Violate(vh.Violation{Key: c.key, Desc: fmt.Sprintf("%s: %s (-o %d)", key, detail, opt),
+					Case:     c10Case{Ego: tprogs[i].Ego, Opt: opt, Want: want, Abort: wantAbort, Marks: c.p.marks},
 					Expected: map[string]any{"trace": want, "abort": wantAbort}, Observed: map[string]any{"stdout": e.Out, "error": e.Err}})
 				break
 			}
